@@ -1278,6 +1278,52 @@ def run(ctx: Any, prog: Program) -> None:
         ctx.check('C14.X19', not swallowing, dmx, swallowing[0] if swallowing else l19, 'parse_kv2 wraps the whole reference resolution loop in `try ... except KeyError: pass`: the first reference to an element that is not in the file '
                   '(a stub) ends the loop, and every reference queued after it - shared elements, cycles, references back to the root - is left as a stub although its target was read', func='Element.parse_kv2',
                   text='a missing id is handled per reference')
+    # ---- X20: strings are encoded strictly ---------------------------------------------------------------------------------------------------
+    # `.encode(enc, 'backslashreplace' / 'replace' / 'ignore')` writes something for a character the encoding cannot hold instead of refusing:
+    # the file parses, but the name or value that comes back is another string and nothing signalled it.
+    ctx.rule('C14.X20', 'the DMX writers encode text with the strict error handler', floor=5)
+    n20 = 0
+    for q20, fl20 in dmx.all_funcs().items():
+        for f20 in fl20:
+            for c20 in [c for c in walk_no_nested(f20) if isinstance(c, ast.Call) and isinstance(c.func, ast.Attribute) and c.func.attr == 'encode']:
+                n20 += 1
+                errs = [a for a in c20.args[1:2]] + [k.value for k in c20.keywords if k.arg == 'errors']
+                lossy = [e for e in errs if isinstance(e, ast.Constant) and e.value in ('backslashreplace', 'replace', 'ignore', 'xmlcharrefreplace', 'namereplace')]
+                ctx.check('C14.X20', not lossy, dmx, c20, f'{q20} encodes with errors={lossy[0].value!r}' if lossy else 'strict', func=q20, text=f'{q20}: `{U(c20)[:40]}` is strict')
+                if lossy:
+                    pass
+    ctx.shape('C14.X20', n20 >= 5, dmx, dmx.tree, f'{n20} encode() calls found in dmx.py', text='encode calls')
+    # ---- X21: leaves and blocks under one KV1 parent force nesting, whichever comes first ----------------------------------------------------------
+    # Element.from_kv1 may turn leaf children into attributes only when that cannot reorder the tree: with both leaves and sub-blocks present,
+    # to_kv1 writes attributes before subkeys, so everything has to go into `subkeys`.  The detection must not depend on which kind it meets
+    # first.
+    ctx.rule('C14.X21', 'from_kv1: a parent with both leaves and blocks is never inlined, in either order', floor=1)
+    fk21 = dmx.func('Element.from_kv1')
+    sets21 = [a for a in ast.walk(fk21) if isinstance(a, ast.Assign) and any(isinstance(t, ast.Name) and t.id == 'no_inline' for t in a.targets) and isinstance(a.value, ast.Constant) and a.value.value is True]
+    both_after, in_block_on_leaf, in_leaf_on_block = False, False, False
+    for a21 in sets21:
+        ancs = _anc14(dmx, a21, fk21)
+        tests = [x for x in ancs if isinstance(x, ast.If)]
+        names_t = {n_.id for t_ in tests for n_ in ast.walk(t_.test) if isinstance(n_, ast.Name)}
+        in_loop = any(isinstance(x, (ast.For, ast.While)) for x in ancs)
+        if {'has_block', 'has_leaf'} <= names_t and not in_loop:
+            both_after = True
+        if in_loop and tests:
+            inner = tests[0]
+            inner_names = {n_.id for n_ in ast.walk(inner.test) if isinstance(n_, ast.Name)}
+            branch_if = next((t_ for t_ in tests[1:] if any(isinstance(c_, ast.Call) and isinstance(c_.func, ast.Attribute) and c_.func.attr == 'has_children' for c_ in ast.walk(t_.test))), None)
+            if branch_if is not None:
+                in_body = any(inner is y for b_ in branch_if.body for y in ast.walk(b_))
+                if 'has_leaf' in inner_names and in_body:
+                    in_block_on_leaf = True
+                if 'has_block' in inner_names and not in_body:
+                    in_leaf_on_block = True
+    decided21 = both_after or in_block_on_leaf or in_leaf_on_block
+    ctx.shape('C14.X21', decided21, dmx, fk21, 'from_kv1: how a parent holding both leaves and blocks is detected was not recognised', func='Element.from_kv1', text='mixed parents are nested')
+    if decided21:
+        ctx.check('C14.X21', both_after or (in_block_on_leaf and in_leaf_on_block), dmx, sets21[0] if sets21 else fk21, 'from_kv1 notices a mix of leaves and blocks only when the '
+                  + ('leaf' if in_block_on_leaf else 'block') + ' comes first: in the other order the leaves are inlined as attributes while the blocks go to `subkeys`, and to_kv1 writes the leaves ahead of the blocks - '
+                  'the tree comes back reordered', func='Element.from_kv1', text='mixed parents are nested')
     ctx.rule('C14.X12', 'KV2 reader: every queued reference is given a stub carrying its id, in array and scalar position', floor=2)
     pk = dmx.func('Element._parse_kv2_element')
     for c in [x for x in ast.walk(pk) if isinstance(x, ast.Call) and isinstance(x.func, ast.Attribute) and x.func.attr == 'append' and isinstance(x.func.value, ast.Name) and x.func.value.id in [a.arg for a in pk.args.args]
@@ -1419,6 +1465,7 @@ def run(ctx: Any, prog: Program) -> None:
 
 
 MUTANTS: List[Dict[str, Any]] = [
+    {'id': 'element_name_encoded_lossily', 'file': 'dmx.py', 'find': "                file.write(elem.name.encode(encoding) + b'\\0')", 'replace': "                file.write(elem.name.encode(encoding, 'replace') + b'\\0')", 'expect': 'C14.X20', 'note': 'round 13'},
     {'id': 'kv2_fixup_try_around_loop', 'file': 'dmx.py', 'find': "        for attr, index, uuid, line_num in fixups:\n            try:\n                elem = id_to_elem[uuid]\n            except KeyError:\n                continue  # It'll be a stub element.\n            if index is None:\n                attr._value = elem\n            else:\n                attr._value[index] = elem\n", 'replace': "        try:\n            for attr, index, uuid, line_num in fixups:\n                elem = id_to_elem[uuid]\n                if index is None:\n                    attr._value = elem\n                else:\n                    attr._value[index] = elem\n        except KeyError:\n            pass\n", 'expect': 'C14.X19', 'note': 'round 12'},
     {'id': 'time_decoded_by_reciprocal', 'file': 'dmx.py', 'find': "    return Time(num / 10000.0)", 'replace': "    return Time(num * 1e-4)", 'expect': 'C14.X4', 'note': 'round 12'},
     {'id': 'null_compared_by_value', 'file': 'dmx.py', 'find': "                        if subelem is NULL:  # It's a singleton.", 'replace': "                        if subelem == NULL:", 'expect': 'C14.X17', 'note': 'round 11'},
